@@ -109,11 +109,12 @@ namespace sq {
 // comparators for the ordered variants
 struct CmpDesc
 {
-	template <typename T> bool operator() (const T & a, const T & b) const { return b.event < a.event; }
+	// user code: may throw (fault kind F_CMP; enabled for top-level enqueue operations only, see execute())
+	template <typename T> bool operator() (const T & a, const T & b) const { faultPoint(F_CMP); return b.event < a.event; }
 };
 struct CmpField
 {
-	template <typename T> bool operator() (const T & a, const T & b) const { return std::get<1>(a.arguments).id % 3 < std::get<1>(b.arguments).id % 3; }
+	template <typename T> bool operator() (const T & a, const T & b) const { faultPoint(F_CMP); return std::get<1>(a.arguments).id % 3 < std::get<1>(b.arguments).id % 3; }
 };
 
 struct PolPlainSingle { typedef eventpp::SingleThreading Threading; };
@@ -816,6 +817,9 @@ struct Interp : Sink
 			long arm = 0;
 			for(size_t f = 0; f + 1 < faults.size(); f += 2) if(faults[f] == (int)i) arm = faults[f + 1];
 			fc.countdown = arm; fc.lastFired = -1;
+			// a throwing comparator is injected into enqueue only (which must then leave the queue unchanged); inside a processing call
+			// the put-back sorts after the events are linked again, which the "discards only what it had taken out" clause does not rule on
+			fc.mask = ops[i].k == O_ENQ ? 0x1fu : (0x1fu & ~(1u << F_CMP));
 			const long before = fc.passed;
 			fuel = std::max(0, plan.user(U_FUEL));
 			bool threw = false;
